@@ -46,6 +46,11 @@ def _link_cfg(rng, kind=None):
         "pfit_tail": rng.choice([None, 3, 10]),        # p99 = tail * p50 for the percentile-fitted latency
         "jit_ms": 0 if rng.random() < 0.4 else dur_ms(rng, 0.1, rng.choice([5, 20, 120])),
         "jit_exp": rng.random() < 0.5,
+        # jitter that can go NEGATIVE (the link clamps the total delay at zero): a negative constant built with the
+        # distributions' `-` operator, zero-mean uniform / alternating ±a jitter (LatencyDistribution subclasses);
+        # amplitudes below and above the base latency.  None: the non-negative kinds above (jit_exp)
+        "jit_kind": rng.choice([None, None, "neg-const", "sym", "alt"]),
+        "lat_neg": rng.random() < 0.05,                 # the base latency itself below zero (`ConstantLatency(x) - 2x`)
         "bw": rng.choice(BANDWIDTH),
     }
 
@@ -157,12 +162,36 @@ def _latency(lc):
 
     lat = lc["lat_ms"] / 1000.0
     kind = lc.get("lat_kind", "exp" if lc["exp"] else "const")
+    if lc.get("lat_neg") and lat > 0:
+        return ConstantLatency(lat) - 2 * lat
     if lat <= 0 or kind == "const":
         return ConstantLatency(lat)
     if kind == "pfit":
         tail = lc.get("pfit_tail")
         return PercentileFittedLatency(p50=lat, p99=lat * tail) if tail else PercentileFittedLatency(p50=lat)
     return ExponentialLatency(lat)
+
+
+def _signed_jitter(kind, amplitude):
+    """zero-mean jitter as a user-defined LatencyDistribution: uniform on [-a, a] drawn from the module-level `random`
+    (seeded by seed_all), or the deterministic sequence +a, -a, +a, …"""
+    import random as _random
+
+    from happysimulator.core.temporal import Duration
+    from happysimulator.distributions.latency_distribution import LatencyDistribution
+
+    class SignedJitter(LatencyDistribution):
+        def __init__(self):
+            super().__init__(0.0)
+            self.n = 0
+
+        def get_latency(self, current_time):
+            self.n += 1
+            if kind == "alt":
+                return Duration.from_seconds(amplitude if self.n % 2 else -amplitude)
+            return Duration.from_seconds(_random.uniform(-amplitude, amplitude))
+
+    return SignedJitter()
 
 
 def _mk_link(lc, name, egress=None):
@@ -199,7 +228,13 @@ def _mk_link(lc, name, egress=None):
     jit = None
     if lc["jit_ms"]:
         j = lc["jit_ms"] / 1000.0
-        jit = ExponentialLatency(j) if lc["jit_exp"] else ConstantLatency(j)
+        jk = lc.get("jit_kind")
+        if jk == "neg-const":
+            jit = ConstantLatency(j) - 2 * j
+        elif jk in ("sym", "alt"):
+            jit = _signed_jitter(jk, j)
+        else:
+            jit = ExponentialLatency(j) if lc["jit_exp"] else ConstantLatency(j)
     return NetworkLink(name=name, latency=_latency(lc), bandwidth_bps=lc["bw"], packet_loss_rate=lc["loss"],
                        jitter=jit, egress=egress)
 
